@@ -379,6 +379,17 @@ func TestTreap(t *testing.T) {
 				if it.staleRisk {
 					sig = sigTreapStaleSeek
 				}
+				// known finding class: single-bounded iterator whose range is empty while the treap is not
+				all := sortedKeys(modelOf(it))
+				if len(all) > 0 && len(keys) == 0 &&
+					((mv == "First" || mv == "Next" && it.isNew) && !it.hasStart && it.hasLim || (mv == "Last" || mv == "Prev" && it.isNew) && it.hasStart && !it.hasLim) {
+					if known(sigTreapOneBound) {
+						recTreap.Excluded()
+						recTreap.Count("excluded:single-bound-empty-range", 1)
+						t.Skip()
+					}
+					sig = sigTreapOneBound
+				}
 				switch mv {
 				case "First":
 					logf("iter#%d First", j)
